@@ -37,6 +37,15 @@ def source_walk(ctx):
     vlib.proof_phase_extra(ctx, 'Properties_walk_source')
 
 
+# properties that rest on how the policies publish v-table pointers and find them again by type id
+# (vptr_vector / vptr_map publish_vptrs, dynamic_vptr): translators/publish.py -> Gen/GenPub.v -> Properties_pub_source
+SOURCE_PUB = ('C01', 'C07')
+
+
+def source_pub(ctx):
+    vlib.proof_phase_extra(ctx, 'Properties_pub_source')
+
+
 def main(pid, assumptions, level='proof', explanation=None):
     ctx = vlib.Ctx(pid)
     if ctx.replay:
@@ -47,6 +56,8 @@ def main(pid, assumptions, level='proof', explanation=None):
         source_ordering(ctx)
     if pid in SOURCE_WALK:
         source_walk(ctx)
+    if pid in SOURCE_PUB:
+        source_pub(ctx)
     res = coresuite.dispatch_suite(ctx.tier, ctx.seed)
     cov = coresuite.summarize(ctx, res, pid)
     if ctx.broken and not ctx.violations:
